@@ -11,7 +11,7 @@ sys.path.insert(0, os.path.join(common.VERIF, 'gen'))
 
 FINISH = dict(level='proof', rule='inputs = sequences of terminal commands (printables, CR/LF/BS, every escape sequence the table knows with parameters from '
               '{0,1,in-range,=size,>size,10^6, long digit strings}, unknown / truncated sequences, stray ESC) on screens 1x1..4x5 and 24x80, fed whole and cut into pieces at '
-              'arbitrary points, as str and as utf-8 / latin-1 bytes (cuts inside multi-byte characters); distinct = distinct model inputs')
+              'arbitrary points, as str and as utf-8 / latin-1 bytes (cuts inside multi-byte characters, also malformed sequences); distinct = distinct model inputs')
 
 STATE_IDS = {'INIT': 0, 'ESC': 1, 'G0SCS': 2, 'G1SCS': 3, 'GRAPHICS_POUND': 4, 'ELB': 5, 'MODECRAP': 6, 'MODECRAP_NUM': 7,
              'NUMBER_1': 8, 'SEMICOLON': 9, 'NUMBER_2': 10, 'SEMICOLON_X': 11, 'NUMBER_X': 12}
@@ -96,6 +96,14 @@ def run(ctx):
         if mode == 'latin-1':
             text = text.replace('☃', '~')
         data = text if mode == 'str' else text.encode(mode)
+        if mode == 'utf-8' and rng.random() < 0.35:
+            # malformed input: truncated / stray multi-byte sequences in between (the decoder replaces them); the text the
+            # terminal is meant to see is the decoding of the whole input
+            for _ in range(rng.randint(1, 3)):
+                k = rng.randrange(len(data) + 1)
+                data = data[:k] + rng.choice([b'\xe2', b'\xe2\x8c', b'\xc3', b'\xff', b'\x8c', b'\xf0\x9f']) + data[k:]
+            import codecs
+            text = codecs.getincrementaldecoder('utf-8')('replace').decode(data)          # a sequence still open at the end stays pending
         # cut points
         cuts = sorted(set(rng.randrange(len(data) + 1) for _ in range(rng.choice([0, 1, 2, 3, 5]))))
         pieces, prev = [], 0
